@@ -160,6 +160,9 @@ def extreme_updates(sh: T.Shape, tier: str) -> Iterator[Case]:
         n = min((room - len(ba) - 8 - per) // rec, 900 if tier == 'quick' else 70000)
         val = b''.join((i + 1).to_bytes(4, 'big') if rec == 4 else (bytes([0, 2]) + u16(64512) + u32(i)) if rec == 8 else u32(64512) + u32(i) + u32(1) for i in range(n))
         yield Case(2, update(ba + attr(flags, code, val), one), 'valid-extreme', 'many-' + label, True, n)
+    # extended communities whose 8 bytes are anything at all are valid; some values are awkward to render
+    for label, rec in [('extcomm-traffic-rate-nan', bytes.fromhex('800600007fc00000')), ('extcomm-traffic-rate-inf', bytes.fromhex('800600007f800000')), ('extcomm-traffic-rate-packets-neg-inf', bytes.fromhex('800c0000ff800000')), ('extcomm-all-ones', b'\xff' * 8), ('extcomm-zero', bytes(8))]:
+        yield Case(2, update(ba + attr(0xC0, 16, rec), one), 'valid-extreme', label, True, 1)
     # MP_REACH / MP_UNREACH for IPv6 unicast with many routes
     if (2, 1) in sh.fams:
         p6 = 9 if '2.1' in sh.params.split()[1].split('+') else None
@@ -741,7 +744,12 @@ class Judge:
         fast = level.endswith('fast-path')
         need_ref = klass == 'valid-refused' and case.ty == 2 and self.ctx.driver_ok
 
+        tries = [0]
+
         def same(shape: T.Shape, body: bytes) -> bool:
+            tries[0] += 1
+            if tries[0] > (60 if self.ctx.tier == 'quick' else 400) or self.ctx.time_left() < 5:
+                return False
             o = T.read_message(shape, case.ty, body, fast=fast) if use_rm else T.unpack_forced(shape, case.ty, body)
             if not (o.cls == out.cls and o.detail == out.detail and (o.cls != 'notify' or slug(o.note) == slug(out.note))):
                 return False
@@ -822,7 +830,7 @@ class Judge:
         ctx.count(f'outcome-unpack:{o1.key()}')
         ctx.count(f'outcome-read_message:{o2.key()}')
         bad = ('raised', 'recursion', 'timeout')
-        words = {'raised': 'raised something that is not a NOTIFICATION', 'recursion': 'unbounded recursion (RecursionError)', 'timeout': f'did not finish within {T.TIMEOUT_S} CPU-seconds'}
+        words = {'raised': 'raised something that is not a NOTIFICATION', 'recursion': 'unbounded recursion (RecursionError)', 'timeout': f'did not finish within the CPU backstop ({T.TIMEOUT_S}s + 0.5s/4096 bytes, confirmed at 3x)'}
         # 1. anything that is not a Notify: out of Message.unpack / the forced lazy parts ...
         if o1.cls in bad:
             lvl = 'unpack' if o1.stage == 'unpack' else o1.stage
@@ -1031,13 +1039,14 @@ def run(ctx: Ctx) -> None:
     for name in list(judge.pending):
         judge.flush(T.build_shape(next(s for s in T.ALL_SPECS if s[0] == name)))
 
-    n_enc = 40 if quick else 1500
-    n_other = 8 if quick else 150
-    n_rand = 60 if quick else 3000
+    n_enc = 30 if quick else 1500
+    n_other = 6 if quick else 150
+    n_rand = 80 if quick else 3000
     per_mut = 3 if quick else 0  # 0 = every field, every value
-    budget_streams = ctx.time_left() - (25 if quick else 200)
+    budget_streams = min(ctx.time_left() - (30 if quick else 240), 40 if quick else 600)
     for si, sh in enumerate(shapes):
-        share = t0 + budget_streams * (si + 1) / len(shapes)
+        start = time.time()
+        span = max(1.0, (t0 + budget_streams - start) / (len(shapes) - si))  # what is left, shared evenly
         valid: list[Case] = []
         valid += list(extreme_updates(sh, ctx.tier))
         if ctx.driver_ok:
@@ -1045,26 +1054,35 @@ def run(ctx: Ctx) -> None:
         valid += valid_opens(rng, sh, n_other)
         valid += valid_others(rng, sh, n_other)
         valid += unknown_types(rng)
+        if quick and si > 0:
+            # the giants (64 KB of routes through four encoders) run on the first 65535 shape only in the quick tier
+            valid = [c for c in valid if len(c.body) <= 6000]
+        valid.sort(key=lambda c: len(c.body) // 512)  # cheap ones first: if the machine is slow the giants are what is cut
+        done = 0
         for case in valid:
+            if time.time() > start + 0.5 * span and done >= 40:
+                ctx.count('valid-stream-cut-by-time')
+                break
             o1, o2 = judge.run_case(sh, case)
+            done += 1
             ctx.sample({'shape': sh.name, 'type': case.ty, 'stream': case.stream, 'label': case.label, 'size': len(case.body), 'unpack+force': o1.canon(), 'read_message': o2.canon()}, cap=6)
         judge.flush(sh)
         # corruptions of the valid ones (not of the giants: their corruptions are covered by the small ones)
-        pool = [c for c in valid if 0 < len(c.body) <= 1500]
+        pool = [c for c in valid[: max(done, 1)] if 0 < len(c.body) <= 1500]
         rng.shuffle(pool)
         for case in pool:
-            if time.time() > share - (share - t0) * 0.25 / (si + 1):
+            if time.time() > start + 0.8 * span:
                 break
             muts = corrupt_update(rng, case.body, per_mut) if case.ty == 2 else corrupt_generic(rng, case.body, per_mut)
             if not quick and len(muts) > 400:
                 muts = rng.sample(muts, 400)
             for body, label in muts:
                 if len(body) + 19 <= sh.msg_size:
-                    judge.run_case(sh, Case(case.ty, body, 'corrupt', label.split(':')[0] + ':' + label.split(':')[1] if ':' in label else label, None))
+                    judge.run_case(sh, Case(case.ty, body, 'corrupt', label, None))
                     ctx.count('corruption:' + label)
         judge.flush(sh)
         for case in random_cases(rng, sh, n_rand):
-            if time.time() > share:
+            if time.time() > start + span:
                 break
             judge.run_case(sh, case)
             ctx.count('random:' + case.label)
